@@ -82,7 +82,11 @@ def duration_candidates(two_day, month_peak, month_avg, lntts, gvals, ts, k_soil
         r_nm = response(q_nom)
         target = float(r_nm.max())
         nominal_maxes.append(target)
-        if target > 0.0:
+        if abs(pk - month_avg) <= 1e-9 * max(abs(pk), 1e-30):
+            # the month's peak equals its average (constant month): the constant load "peak minus average" is zero, its response is
+            # flat and the defining time does not exist - only the bounds clause can be judged
+            cands.append(float("inf"))
+        elif target > 0.0:
             cands.append(_interp_extrap(target, r_pk, hours))
         else:
             cands.append(None)  # any tiny positive duration accepted
